@@ -63,6 +63,16 @@ CLAIMS["C03"] = ("finite-domain abstract interpretation: symbolic path enumerati
     "Decides that both endpoint comparators are total and antisymmetric on every realisable equal-time pair (CLOSE/CLOSE may tie), satisfy the property's tie rules (closing before opening for positive spans, longer span opens first, identical spans in file order, shorter span closes first, a zero-duration event opens before it closes and never separates a positive endpoint's two sides), order different instants by time, agree with each other on every tree-relevant pair, and are free of 3-cycles except for the recorded known finding (zero-duration endpoint, positive CLOSE, positive OPEN at one instant - both comparators); that both builders sort with the analysed comparator before a scan that pushes exactly once with parent = stack top (root when empty) on OPEN and pops exactly once, unconditionally but for emptiness, on CLOSE; and that array layout / marker constants / Event field order agree between writer, comparator and scan. Given these, sorted() yields the bracket sequence of the nesting (paper argument); sorted() itself is trusted.",
     "3/C03")
 
+CLAIMS["C08"] = ("symbolic evaluation of node creation; complete weight decision table (5 types x zero_weight) by path enumeration; def-use role typing of all 8 edge-creation sites against a per-type table; dominance rule for validation; API-contract rule",
+    "Decides the structural clauses only: every selected event yields exactly a (ts, start) and a (ts+dur, end) node whose id is its position in the time-sorted node frame, with CPNode fields and the two maps built consistently; weight = 0 for dependency/sync types or zero_weight and dest.ts - src.ts otherwise, depending on nothing else; each creation site joins the node roles its edge type stands for (launch START -> its kernel START via row.index_correlation; previous kernel END under the same stream key -> kernel START; kernel END -> host call END / kernel START; previous top-level END -> START; span and nesting edges), stream syncs wait only for their own stream; validation precedes and gates the longest-path call; no pandas call on the construction path that the installed API rejects. Acyclicity / forward-in-time / success for every causally consistent trace are NOT decided (trace-dependent).",
+    "3/C08")
+CLAIMS["C09"] = ("agreement rules (attribute key written = key maximised = only key validation may reset, and only to 0 under the negative-weight guard), derivation patterns of the event/edge sets, reset-before-accumulate ordering rule, validation dominance",
+    "Decides the structural clauses: 'weight' written by _add_edge is what dag_longest_path maximises on the graph itself; validation never rewrites weights except 0 under the negative-weight guard (so a re-weighted copy is not silently reset); critical events come from all path nodes; critical edges are the 'object' of consecutive node pairs; the edge set is emptied after the new path is known and before accumulation on every call; validation gates the computation. Optimality itself is delegated to networkx (trusted base) and the makespan bound is not decided.",
+    "3/C09")
+CLAIMS["C10"] = ("decision-table extraction by symbolic path enumeration (_attribute_edge: 5 types x 4 start/end cases; bound_by: type x host/device x communication), enum/string agreement, def-use pairing rule for the recorded parent, symbolic evaluation of the breakdown pipeline with an event-log rule against row-changing operations",
+    "Decides: the attribution table (non-span types unattributed; kernel-to-kernel delay -> preceding kernel; (S,S),(S,E) -> src, (E,E) -> dest, (E,S) -> recorded parent), the parent is recorded whenever last_node moves and -1 is used on streams; bound_by's full table and that its literals are exactly the enum values of the four non-span types; breakdown has one record per critical edge with duration = weight, type = enum value, event_idx = attribution, left-joined on the unique event id with no later row removal/merging; summary = per-class share * 100. Span containment of the attributed event is not decided.",
+    "3/C10")
+
 REASON_WIP = "checker under construction in this session (see DESIGN.md section 3); not claimed until its check is committed"
 
 
